@@ -267,7 +267,7 @@ module_stmt :
 belongs_to_def :
     kywd_belongs_to token_string {
         l := yylex.(*lexer)
-        l.stack.push(l.builder.BelongsTo(l.stack.peek(), $2))
+        l.stack.push(l.builder.BelongsTo(l.stack.peek(), tokenString($2)))
         if chkErr(yylex, l.builder.LastErr) {
             goto ret1
         }
@@ -377,7 +377,7 @@ include_stmt :
 revision_date_stmt :
     kywd_revision_date token_string token_semi {
         l := yylex.(*lexer)
-        l.builder.SetRevisionDate(l.stack.peek(), $2)
+        l.builder.SetRevisionDate(l.stack.peek(), tokenString($2))
     }
 
 optional_body_stmts :
@@ -1509,7 +1509,7 @@ enum_stmt :
 enum_def : 
     kywd_enum token_string {
         l := yylex.(*lexer)
-        l.stack.push(l.builder.Enum(l.stack.peek(), trimQuotes($2)))
+        l.stack.push(l.builder.Enum(l.stack.peek(), tokenString($2)))
         if chkErr(yylex, l.builder.LastErr) {
             goto ret1
         }
@@ -1583,7 +1583,7 @@ yang_ver_stmt :
 units_stmt :
     kywd_units token_string statement_end {        
         l := yylex.(*lexer)        
-        l.builder.Units(l.stack.peek(), $2)
+        l.builder.Units(l.stack.peek(), tokenString($2))
         if chkErr2(l, "units", $3) {
             goto ret1
         }
